@@ -560,12 +560,18 @@ def run_world(seed, tier, world=None, histories=None, relations=True):
         from cij.util import c_
         from cij.core.tasks import PhononContributionTaskList
         irng = random.Random(seed ^ 0x2545F491)
-        for _round in range(2):
+        # a second calculator of the same shape holding other numbers: with the SAME strain field its tasks have parameters equal to the first one's
+        calc2 = None
+        if world["kind"] == "stub":
+            w2 = dict(world, freq=(numpy.array(world["freq"]) * 1.07).tolist(), gamma=(numpy.array(world["gamma"]) * 0.93).tolist())
+            calc2 = build_stub(w2)
+        for _round in range(3 if calc2 is not None else 2):
             lists = []
             for li in range(2):
-                S = strain if (li == 0 or irng.random() < 0.4) else alt
+                S = strain if (li == 0 or irng.random() < 0.4 or _round == 2) else alt
+                cc = calc2 if (_round == 2 and li == 1) else calc
                 h = [[k] for k in irng.sample(ALL21, irng.choice([1, 2, 4, 8, 21]))]
-                lists.append({"S": S, "h": h, "keys": [c_(*a) for a in h], "tl": PhononContributionTaskList(calc), "step": 0, "got": None})
+                lists.append({"S": S, "h": h, "keys": [c_(*a) for a in h], "tl": PhononContributionTaskList(cc), "calc": cc, "step": 0, "got": None})
             order = [0, 0, 0, 1, 1, 1]
             irng.shuffle(order)
             for li in order:
@@ -580,7 +586,7 @@ def run_world(seed, tier, world=None, histories=None, relations=True):
             runs += 2
             mon.violations = []
             for li, L in enumerate(lists):
-                rkeys, ref, ref_ad, _tl = run_request(calc, L["S"], L["h"])
+                rkeys, ref, ref_ad, _tl = run_request(L["calc"], L["S"], L["h"])
                 runs += 1
                 mon.violations = []
                 for key in L["keys"]:
